@@ -229,6 +229,10 @@ func TestStaleAttempt(t *testing.T) {
 }
 
 func interruptTest(t *testing.T, PROP string, fateChoices []string) {
+	interruptTestWith(t, PROP, fateChoices, func(t *rapid.T) *mrogen.Program { return mrogen.GenProgram(t, restartCfg()) })
+}
+
+func interruptTestWith(t *testing.T, PROP string, fateChoices []string, gen func(t *rapid.T) *mrogen.Program) {
 	root := workRoot(t)
 	// whatever goes wrong in a run that was interrupted belongs to the
 	// property the test is run for (stalls, wrong arguments after the
@@ -243,7 +247,7 @@ func interruptTest(t *testing.T, PROP string, fateChoices []string) {
 				}
 			}
 		}()
-		prog := mrogen.GenProgram(t, restartCfg())
+		prog := gen(t)
 		for k := range excluded {
 			delete(excluded, k)
 		}
